@@ -116,6 +116,13 @@ class DefaultDictV(dict):
     is_counter = False
 
 
+class IdInt(int):
+    """The result of id(obj): an int that remembers whose identity it is (a key built from it stays valid only
+    while that object is alive)."""
+
+    of: Any = None
+
+
 class ClassDictV(dict):
     """Instance of a repository class that derives from dict (typing.Dict[...], OrderedDict, ...): a dict
     that also has a class (methods, special methods) and instance attributes."""
